@@ -148,6 +148,25 @@ func c12(r *Run) {
 	}
 
 	errMappingRules(r, "C12.R2")
+	// a call parked when the connection closes is released (never blocks): the close wake-ups
+	closeWakeRules(r, "C12.R2")
+	// a recycled buffer reports length 0 (so every later sized read goes to the closed-state answer instead of
+	// walking the nil node chain)
+	{
+		cl := w.MustFn("(*UnsafeLinkBuffer).Close")
+		r.mustPass("C12.R3:recycled-buffer-reports-empty", "closing (recycling) a buffer resets its readable length to 0 on every path: a Reader call on the closed connection then needs 'more than is buffered' and gets the closed error instead of dereferencing the recycled node chain", cl, nil, []Start{Entry(cl)}, func(i ssa.Instruction) bool {
+			a := asAtomic(i)
+			if a != nil && a.Op == "Store" && structFieldOfAddr(a.Addr) == "UnsafeLinkBuffer.length" {
+				k, ok := constInt(a.Args[0])
+				return ok && k == 0
+			}
+			if st, ok := i.(*ssa.Store); ok && isStoreToField(i, "UnsafeLinkBuffer", "length") {
+				k, okc := constInt(st.Val)
+				return okc && k == 0
+			}
+			return false
+		}, nil, nil, "Store(length, 0) on every path")
+	}
 
 	// ---- R3 enumerated panic sources ---------------------------------------------------------------
 	nilGuardsFor(r, "C12.R3")
